@@ -108,6 +108,12 @@ func TestC16(t *testing.T) {
 			cc.cutAt = k
 			cc.name = crossingOp(h.ops, k)
 			cases = append(cases, cc)
+			if r.Thorough() || cb.variant == "happy" {
+				// the same cut with the drain starting with a restart: in-memory timers are gone before they fire
+				c3 := cc
+				c3.restartFirst = true
+				cases = append(cases, c3)
+			}
 			if (r.Thorough() && k > 2) || (!r.Thorough() && cb.variant == "happy" && k > 2 && k%4 == 1) {
 				c2 := cc
 				c2.crashAt, c2.flavor = k-2, "after"
